@@ -40,7 +40,32 @@ pub fn run(prop: &str, opts: &Opts) -> bool {
         "c16" => c16::run(opts),
         "c16check" => c16::check_logs(opts),
         "c17" => c17::run(opts),
+        "featkeys" => featkeys(opts),
         _ => return false,
     }
     true
+}
+
+/// writes fixed key files for the feature-subset probes (C19): `pvmon featkeys <dir>`
+fn featkeys(opts: &Opts) {
+    use crate::backend::*;
+    use crate::util::Rng;
+    fn go<B: Backend>(dir: &str) {
+        if B::FAMILY != Family::RustCrypto {
+            return;
+        }
+        let mut rng = Rng::derive(19, "featkeys", B::VER as u64);
+        let local: [u8; 32] = rng.arr();
+        let sk = B::gen_secret(&mut rng);
+        let pk = key_bytes(&secret_key::<B>(&sk).public_key());
+        let (ps, pp) = B::gen_pke_pair(&mut rng);
+        for (name, bytes) in [("local", local.to_vec()), ("secret", sk), ("public", pk), ("pke-secret", ps), ("pke-public", pp)] {
+            std::fs::write(format!("{dir}/v{}.{name}.bin", B::VER), bytes).expect("write key file");
+        }
+    }
+    let dir = opts.extra.first().expect("dir").clone();
+    go::<V1>(&dir);
+    go::<V2>(&dir);
+    go::<V3>(&dir);
+    go::<V4>(&dir);
 }
